@@ -52,6 +52,9 @@ def plan(tier, seed):
     return specs
 
 
+_PRF_POOL, _HASH_POOL = {}, {}
+
+
 def check_prf(acc, prf_mod, rng, digest, key, msg, n, declared):
     kw = {"output_length": n, "hash_func_name": digest}
     if declared:
@@ -63,7 +66,13 @@ def check_prf(acc, prf_mod, rng, digest, key, msg, n, declared):
     nclass = "short" if n < hashlib.new(digest).digest_size else ("equal" if n == hashlib.new(digest).digest_size
                                                                   else "long")
     try:
-        f = prf_mod.get_prf_implementation(rng.choice(["HmacPRF", "hmac-prf", "HMAC_PRF", "hmacprf"]))(**kw)
+        pk = tuple(sorted(kw.items()))
+        f = _PRF_POOL.get(pk) if rng.random() < 0.7 else None   # mostly an instance that has served other inputs
+        acc.count("prf.instance_reused" if f is not None else "prf.instance_fresh")
+        if f is None:
+            f = prf_mod.get_prf_implementation(rng.choice(["HmacPRF", "hmac-prf", "HMAC_PRF", "hmacprf"]))(**kw)
+            if len(_PRF_POOL) < 4000:
+                _PRF_POOL[pk] = f
         out = f(key, msg)
         out2 = f(key, msg)
     except Exception as e:
@@ -87,7 +96,11 @@ def check_hash(acc, hash_mod, rng, digest, msg, n):
     nclass = "xof" if digest.startswith("shake") else ("short" if n < base else ("equal" if n == base else "long"))
     try:
         name = rng.choice([digest, digest.upper()]) if not digest.startswith("shake") else digest
-        h = hash_mod.get_hash_implementation(name)(output_length=n)
+        h = _HASH_POOL.get((digest, n)) if rng.random() < 0.7 else None
+        acc.count("hash.instance_reused" if h is not None else "hash.instance_fresh")
+        if h is None:
+            h = hash_mod.get_hash_implementation(name)(output_length=n)
+            _HASH_POOL[(digest, n)] = h
         out = h(msg)
         out2 = h(msg)
     except Exception as e:
